@@ -112,6 +112,8 @@ class PathMgr:
         self.merged_dicts: Dict[int, Any] = {}
         self.base_facts: Dict[int, Any] = {}
         self.classobj_cands: List[Any] = []
+        self._tupkeys: Dict[int, Any] = {}
+        self.ddict_factory: Dict[int, str] = {}
         self.canon_map: Dict[int, Any] = {}
         self.lazy_branching = False
         self.model_cache: List[Any] = []
@@ -572,6 +574,9 @@ class PathMgr:
         t = time.time()
         if z3.is_true(g):
             ob.verdict, ob.backend = 'discharged', 'simplifier'
+        elif os.environ.get('PYVC_DEBUG_SKIP_OBLIGATIONS'):
+            ob.verdict, ob.backend = 'unknown', 'skipped (debug run)'       # never a pass: debugging aid only
+            ob.info['reason'] = 'skipped'
         else:
             s = z3.Solver()
             s.set('timeout', SOLVER_TIMEOUT_MS)
